@@ -566,3 +566,66 @@ def rod_mirror(model, res, prop='C07', rule='C07.rod-mirror'):
                             'Rod1D: %s of case BC4 evaluated at L - x is not %s of case BC3 with the boundary data and the '
                             'initial end temperatures exchanged: the two routes to the same physical problem disagree' % (label, label),
                             line=chain[0].lineno, construct='BC3 / BC4 branches'))
+
+
+def hutchens2(model, res):
+    """Hutchens2 (steady cylinder with heat generation): the polynomial part satisfies  T_zz + g0/k = 0  and the end conditions
+    T(z = 0) = T0, T(z = L) = TL; every summand added to the series is harmonic,  T_rr + T_r / r + T_zz = 0  (modified Bessel
+    function I0; sympy's differentiation rules), and vanishes at z = 0 and z = L."""
+    cls = model.get_class('exactpack.solvers.heat.hutchens2:Hutchens2')
+    runm = cls.find_method('_run')
+    r, z = sp.Symbol('r', positive=True), sp.Symbol('z', real=True)
+
+    class _F(Formulas):
+        def sym(self, name):
+            return sp.Symbol(name, positive=True) if name in ('b', 'k', 'L', 'Nsum') else sp.Symbol(name, real=True)
+
+        def ev(self, e):
+            if isinstance(e, ast.Call) and src_of(e.func) in ('i0', 'scipy.special.i0', 'special.i0') and len(e.args) == 1:
+                return sp.besseli(0, self.ev(e.args[0]))
+            return Formulas.ev(self, e)
+    F = _F()
+    F.env[runm.node.args.args[1].arg] = [r, z]
+    body = [st for st in runm.node.body if not isinstance(st, ast.Return)]
+    pre = [st for st in body if not isinstance(st, ast.For)]
+    loops = [st for st in body if isinstance(st, ast.For)]
+    if len(loops) != 1:
+        raise AnalysisError('Hutchens2._run: the series loop changed shape')
+    F.run([st for st in pre if not (isinstance(st, ast.Assign) and src_of(st.targets[0]) == 'sum')], branch=lambda s_: None)
+    base = F.env.get('temperature')
+    if base is None:
+        raise AnalysisError('Hutchens2._run: the polynomial part vanished')
+    F.env['sum'] = sp.Integer(0)
+    # summands: every `sum += term` of the loop body
+    F.added = {}
+    for st in loops[0].body:
+        if isinstance(st, ast.AugAssign) and isinstance(st.target, ast.Name) and st.target.id == 'temperature':
+            continue
+        F.run([st], branch=lambda s_: None)
+    terms = F.added.get('sum', [])
+    if len(terms) < 2:
+        res.notes.append('Hutchens2._run: %d series summands; series clauses not applied' % len(terms))
+        return
+    g0, kk, L, T0, TL = (F.sym(a) for a in ('g0', 'k', 'L', 'T0', 'TL'))
+
+    def oblige(label, ok, msg, at=None):
+        res.obligations += 1
+        res.evaluations += 1
+        res.nontrivial += 1
+        if ok:
+            res.discharged += 1
+            res.sample({'rule': 'C14.series', 'identity': 'Hutchens2: ' + label}, limit=80)
+        else:
+            res.add(Finding(PROP, 'C14.series', runm.module.relpath, runm.qualname, 'Hutchens2: ' + label, msg,
+                            line=getattr(at, 'lineno', 0) or runm.node.lineno, construct=src_of(at)[:160] if at is not None else 'def _run'))
+    oblige('polynomial part: T_zz + g0/k == 0, T(z=0) == T0, T(z=L) == TL',
+           iszero(sp.diff(base, z, 2) + g0 / kk) and iszero(base.subs(z, 0) - T0) and iszero(base.subs(z, L) - TL),
+           'Hutchens2._run: the polynomial part does not satisfy T_zz + g0/k = 0 with T = T0 at z = 0 and T = TL at z = L')
+    stmts = [st for st in loops[0].body if isinstance(st, ast.AugAssign) and isinstance(st.target, ast.Name) and st.target.id == 'sum']
+    for i, term in enumerate(terms):
+        lap = sp.diff(term, r, 2) + sp.diff(term, r) / r + sp.diff(term, z, 2)
+        ok = sp.simplify(sp.expand_func(lap)) == 0 and iszero(term.subs(z, 0)) and iszero(sp.simplify(term.subs(z, L)))
+        oblige('series summand %d is harmonic and vanishes at z = 0 and z = L' % (i + 1), ok,
+               'Hutchens2._run: the summand `%s` of the series is not a solution of T_rr + T_r/r + T_zz = 0 that vanishes at both ends '
+               '(every correction to the polynomial part must be one: the heat generation is already carried by the polynomial part)'
+               % (src_of(stmts[i].value)[:90] if i < len(stmts) else term), at=stmts[i] if i < len(stmts) else None)
